@@ -16,6 +16,8 @@ func init() {
 			"the template renderer reports a context variable as undefined exactly on its missing-value edge and records it in the collector; the literal→JSON writer, the value copier and the printer cover all nine value kinds or fail loudly. " +
 			"It does not decide character-level equality of literals and JSON nor validity of the variables object for all spellings (value level).",
 		Mutants: []Mutant{
+			{Name: "variables view falls back to the canonical name after a remap miss (seeded change C15-21)", File: "v2/pkg/engine/resolve/variables_view.go", Rule: "C15-R5", Key: "VariablesView.Get/remap-consulted-before-lookup",
+				Old: "\tval := v.variables.Get(head)\n", New: "\tval := v.variables.Get(head)\n\tif val == nil && head != path[0] {\n\t\tval = v.variables.Get(path[0])\n\t}\n"},
 			{Name: "subscription start forwards the variables as rendered (the repaired defect F16)", File: gqldsGo, Rule: "C15-R4", Key: "SubscriptionSource.Start/removes-undefined-variables",
 				Old: "\tinput = (&Source{}).compactAndUnNullVariables(input)\n\tvar options GraphQLSubscriptionOptions", New: "\tvar options GraphQLSubscriptionOptions"},
 			{Name: "file uploads skip the un-nulling of variables", File: gqldsGo, Rule: "C15-R4", Key: "Source.LoadWithFiles/removes-undefined-variables",
@@ -39,6 +41,9 @@ func init() {
 
 func runC15(r *fw.Run) {
 	defer c15EveryEntryPointUnNulls(r)
+	// a variable's value reaches the subgraph through VariablesView: a lookup that can fall back to a different client
+	// variable (an omitted $foo renamed to $a picking up the client's own "a") changes the value that is sent
+	defer variablesByNameOnlyThroughView(r, "C15-R5")
 	p := r.Prog
 	pk := p.Pkg("resolve")
 	if pk == nil {
